@@ -107,7 +107,7 @@ func baseForms() []aspec.Base {
 		{Form: "flag", Segs: []string{"f1", "f2"}, TrailingSlash: true},
 		{Form: "flag", Segs: []string{}, AlsoServers: true}, // --basepath / overrides servers[0] (no base path at all)
 		{Form: "flag", Segs: []string{"f3"}, AlsoServers: true},
-		{Form: "servers", Segs: []string{"eu", "x", "eu"}, ViaVariables: true, RepeatVar: true},                 // /{ver}/x/{ver}
+		{Form: "servers", Segs: []string{"eu", "x", "eu"}, ViaVariables: true, RepeatVar: true},             // /{ver}/x/{ver}
 		{Form: "servers", Segs: []string{"api", "v7"}, ViaVariables: true, Absolute: true, RepeatVar: true}, // https://{ver}.{host}/api/{ver}
 	}
 }
